@@ -253,6 +253,15 @@ def check_config(config: dict) -> None:
             f"N_interfaces {n_ens} > N_shooting_moves {n_sh_moves}!"
         )
 
+    # a restart state holds one slot per ensemble: it cannot be loaded
+    # for another number of interfaces than it was written for.
+    current = config.get("current", {})
+    if "size" in current and current["size"] != n_ens:
+        raise TOMLConfigError(
+            f"[current] was written for {current['size']} interfaces,"
+            + f" but {n_ens} are defined!"
+        )
+
     if intf_cap is not False and intf_cap > intf[-1]:
         raise TOMLConfigError(
             f"Interface_cap {intf_cap} > interface[-1]={intf[-1]}"
